@@ -304,6 +304,19 @@ example : Alpaqa.Props.C15.InBox [0] [3] (rm prq (some 7)).x :=
     dirNoop () prq (stopAt (some 7)) (stopAt_mono (some 7)) 1 9 fuelOK_prq false
     [1] [0] [1] [7] [] 0 0 (by decide +kernel)
 
+/-- `panoc_y_errz_consistent` and `panoc_wrote_iff` on the converged run (`m = 1`, non-empty `err_z`) -/
+example : (rm prq none).y = (Pm.psi (rm prq none).x).2 ∧
+    ((0 : Nat) < 1 → (rm prq none).errz = vdiv (vsub (rm prq none).y [0]) [1]) :=
+  panoc_y_errz_consistent Pm dirNoop () prq (stopAt none) (stopAt_mono none) 1 9 fuelOK_prq false
+    [1] [0] [1] [7] [] 0 0 (by decide +kernel)
+
+example : (rm prq none).wrote =
+    ((initState Pm () prq (stopAt none) [1] [] 0 0).isRight &&
+      ((rm prq none).stats.status == .Converged || (rm prq none).stats.status == .Interrupted ||
+        prq.alwaysOverwrite)) :=
+  panoc_wrote_iff Pm dirNoop () prq (stopAt none) (stopAt_mono none) 1 9 fuelOK_prq false
+    [1] [0] [1] [7] [] 0 0
+
 /-- `panoc_untouched_of_status` on the run that does not write -/
 example : (rm { prq with maxIter := 0, alwaysOverwrite := false } none).x = [1] ∧
     (rm { prq with maxIter := 0, alwaysOverwrite := false } none).y = [0] ∧
